@@ -319,6 +319,27 @@ func checkC19(c *chk.Ctx) {
 					fc.probes = append(fc.probes, probe{inst: mk(n, dup), pos: p, note: fmt.Sprintf("%d items dup=%v", n, dup)})
 				}
 			}
+		case "req", "notreq":
+			// the rule "required" (or its absence) on a field of the given shape; no value probes: what is
+			// judged is whether the field is listed under "required"
+			f.Rules.Required = rc.Group == "req"
+			switch rc.Kind {
+			case "message":
+				f.Ref = "rules.v1.Out"
+			case "enum":
+				f.Ref = "rules.v1.Level"
+			}
+			switch rc.Rule {
+			case "opt":
+				f.Card = "opt"
+			case "rep":
+				f.Card = "rep"
+			case "map":
+				f.Card, f.KeyKind = "map", "string"
+			case "oneof_member":
+				f.Oneof = fmt.Sprintf("pick%d", i)
+				cur.Oneofs = append(cur.Oneofs, &abs.Oneof{Name: f.Oneof})
+			}
 		case "map":
 			f.Card, f.KeyKind = "map", "string"
 			switch rc.Rule {
@@ -341,6 +362,7 @@ func checkC19(c *chk.Ctx) {
 		fcs = append(fcs, fc)
 	}
 	file.Messages = append(file.Messages, top, &abs.Message{Name: "Out", Fields: []*abs.Field{{Name: "ok", Num: 1, Kind: "bool", Card: "one", Rules: abs.NoRules()}}})
+	file.Enums = append(file.Enums, &abs.Enum{Name: "Level", Values: []*abs.EnumValue{{Name: "LEVEL_UNSPECIFIED", Num: 0}, {Name: "LEVEL_HIGH", Num: 1}}})
 	file.Services = []*abs.Service{{Name: "RuleService", Methods: []*abs.Method{{Name: "Do", In: "rules.v1.Top", Out: "rules.v1.Out", HasCfg: true, Path: "/do", Verb: "POST"}}}}
 	schema := &abs.Schema{Files: []*abs.File{file}}
 	b, err := abs.Build(schema)
